@@ -144,6 +144,11 @@ class Machine:
                 return UNIT
             if "fbits" in op:
                 return Opaque("float")
+            c = self.u.consts.get(str(op.get("text", "")))
+            if c is not None and isinstance(c.get("init"), dict):
+                v = _const_init(c["init"])
+                if v is not None:
+                    return v
             return Opaque("const " + str(op.get("text", "?"))[:40])
         return self.read_place(fr, op["place"])
 
@@ -411,6 +416,24 @@ class Machine:
         return self.run_body(b, [env] + list(args), depth + 1)
 
 
+def _const_init(e):
+    """value of a constant's initialiser when it is a literal or an array of literals"""
+    k = e.get("k")
+    if k in ("droptemps", "type", "addrof"):
+        return _const_init(e["a"])
+    if k == "lit" and e.get("lit") in ("int", "byte", "char", "bool"):
+        try:
+            return int(e["v"]) if not isinstance(e["v"], bool) else int(e["v"])
+        except (TypeError, ValueError):
+            return None
+    if k == "lit" and e.get("lit") == "bytestr":
+        return list(e["v"])
+    if k == "array":
+        vals = [_const_init(x) for x in e.get("es", [])]
+        return vals if all(isinstance(v, int) for v in vals) else None
+    return None
+
+
 class LenOf:
     """length of a modelled slice: only comparisons against its known lower bound are decided"""
 
@@ -575,6 +598,23 @@ def _unwrap_or(m, a, d):
     return Opaque("unwrap_or")
 
 
+def _starts_with(m, a, d):
+    x, pre = a[0], a[1]
+    if isinstance(pre, Bytes):
+        pre = [pre.known.get(i) for i in range(pre.exact)] if pre.exact is not None else None
+    if isinstance(x, Bytes) and isinstance(pre, list) and all(isinstance(v, int) for v in pre):
+        if x.exact is not None and x.exact < len(pre):
+            return 0
+        if x.minlen < len(pre) and x.exact is None:
+            return Opaque("starts_with: length unknown")
+        got = [x.known.get(i) for i in range(len(pre))]
+        if all(isinstance(v, int) for v in got):
+            return int(got == pre)
+        if any(isinstance(v, int) and v != p_ for v, p_ in zip(got, pre)):
+            return 0
+    return Opaque("starts_with")
+
+
 def _first(m, a, d):
     x = a[0]
     if isinstance(x, Bytes):
@@ -666,6 +706,7 @@ MODELS = {
     "std::option::Option::map": _option_map, "std::option::Option::is_some_and": _is_some_and,
     "std::option::Option::copied": _ident, "std::option::Option::cloned": _ident,
     "std::ops::Try::branch": _try_branch,
+    "core::slice::starts_with": _starts_with,
     "core::slice::first": _first, "core::slice::get": _get,
     "std::cmp::PartialEq::eq": _eq, "std::cmp::PartialEq::ne": _ne,
     "std::clone::Clone::clone": _ident, "std::convert::From::from": _ident, "std::convert::Into::into": _ident,
